@@ -1,6 +1,7 @@
 (* C09 for the JSON parser model on EVERY accepted input (Json/Parse.v).
 
-   The parser is lenient ("+1", "01", a lone "-", "\'", Latin-1 white space ...), so the
+   The parser is lenient ("+1", "01", "\'", Latin-1 white space ...; a lone sign "-" / "+"
+   is no longer among them: C03_json_lone_sign_rejected), so the
    inputs it accepts are a strict superset of the inputs of the RFC 8259 reference decoder
    (Json/Spec.v) for which C09_json_parser (Core/ComposeProofs.v) speaks.  Here the gap is
    closed by reasoning about the parser alone:
@@ -302,6 +303,8 @@ Proof.
     destruct (jvis s (EVal (SNum KFloat64 bits))) as [s2 e2] eqn:Ev. inversion H; subst.
     eapply Ext_vis; [|exact Ev]. cbn [ev_ok scalar_ok nkind_ok]. eapply pf_ok; exact Ep.
   - destruct b as [|c r]; [discriminate|]. cbv zeta in H.
+    destruct (if (c =? 43) || (c =? 45) then r else c :: r) as [|d0 dr];
+      [inversion H; subst; apply Ext_refl|].
     destruct (parse_uint _ 0) as [u|] eqn:Eu; [|inversion H; subst; apply Ext_refl].
     apply parse_uint_range in Eu; [|lia].
     destruct (negb (c =? 45) && (u >? 9223372036854775807)) eqn:E1.
@@ -719,10 +722,12 @@ Module JsonAcceptedExamples.
   Definition monitor (evs : list event) : bool :=
     match stream_trees (S (length evs)) evs with Some ts => forallb wf_tree ts | None => false end.
 
-  (* "+1", "01", "-", "\'" (escaped apostrophe), NBSP 1 SP, all accepted although not RFC 8259 *)
+  (* "+1", "01", "\'" (escaped apostrophe), NBSP 1 SP, all accepted although not RFC 8259;
+     the lone sign "-" was accepted as the integer 0 before the repair of reportNumber and
+     is rejected now *)
   Example ex_plus : accepted [43; 49] = Some [EVal (SNum KInt64 1)]. Proof. vm_compute. reflexivity. Qed.
   Example ex_lead0 : accepted [48; 49] = Some [EVal (SNum KInt64 1)]. Proof. vm_compute. reflexivity. Qed.
-  Example ex_minus : accepted [45] = Some [EVal (SNum KInt64 0)]. Proof. vm_compute. reflexivity. Qed.
+  Example ex_minus : accepted [45] = None. Proof. vm_compute. reflexivity. Qed.
   Example ex_apos : accepted [34; 92; 39; 34] = Some [EStrRef [39]]. Proof. vm_compute. reflexivity. Qed.
   Example ex_nbsp : accepted [160; 49; 32] = Some [EVal (SNum KInt64 1)]. Proof. vm_compute. reflexivity. Qed.
   (* 1 [2,{"a":[]}] "x" : three documents *)
@@ -743,3 +748,24 @@ Module JsonAcceptedExamples.
   Lemma pf0_ok : forall l z, pf0 l = Some z -> (zlen l <? 2 ^ 64) = true -> in_u 64 z = true.
   Proof. intros l z [= <-] H. unfold in_u, zlen in *. lia. Qed.
 End JsonAcceptedExamples.
+
+(* C03 (JSON): a sign without digits is no number.  "-", "+" and "[-]" are not accepted,
+   whatever the float oracle and whatever the visitor does: the verdict of Parse is the
+   parser's error, never nil (before the repair of reportNumber "-" and "+" were delivered
+   as the integer 0). *)
+Theorem C03_json_lone_sign_rejected : forall pf vfail b,
+  b = [45] \/ b = [43] \/ b = [91; 45; 93] \/ b = [91; 43; 93] ->
+  exists evs e p, jrun_parse pf vfail b = Ok (evs, e, p) /\ e <> jpnil.
+Proof.
+  intros pf vfail b Hb.
+  assert (G : forall n, exists evs e p, jrun_parse pf (Some n) b = Ok (evs, e, p) /\ e <> jpnil).
+  { intros n. destruct Hb as [-> | [-> | [-> | ->]]].
+    - do 3 eexists. split; [vm_compute; reflexivity|discriminate].
+    - do 3 eexists. split; [vm_compute; reflexivity|discriminate].
+    - destruct n as [|n]; do 3 eexists; (split; [vm_compute; reflexivity|discriminate]).
+    - destruct n as [|n]; do 3 eexists; (split; [vm_compute; reflexivity|discriminate]). }
+  destruct vfail as [n|]; [apply G|].
+  destruct Hb as [-> | [-> | [-> | ->]]];
+    do 3 eexists; (split; [vm_compute; reflexivity|discriminate]).
+Qed.
+Print Assumptions C03_json_lone_sign_rejected.
